@@ -64,7 +64,7 @@ func c27Line(r *vh.Rand, in c27In) string {
 	case 3, 4, 5:
 		// Exec forms
 		return "Exec=" + r.Pick([]string{cmd, cmd + " %U", cmd + " --flag ${SNAP}/x %f", cmd + "-evil", cmd + "\t%U", cmd + ";rm -rf /", cmd + "  x",
-			"/bin/sh", "sh -c id", "", " " + cmd, in.Snap, in.Snap + "." + app + " %u", in.Snap + "_" + in.Key + "." + app, "snap run " + cmd,
+			"/bin/sh", "sh -c id", "", " " + cmd, " " + cmd + " %U", "  " + cmd + " --flag %f", "\t" + cmd + " %U", " \t " + cmd + " a b", cmd + " %U  ", " " + cmd + " ", in.Snap, in.Snap + "." + app + " %u", in.Snap + "_" + in.Key + "." + app, "snap run " + cmd,
 			"env X=1 " + cmd, cmd + "=x", "other.app", "${SNAP}/bin/x", cmd + " \"a b\" 'c'", cmd + " %U\x01\x7f\xff"})
 	case 6, 7:
 		// Icon forms
@@ -105,6 +105,9 @@ func c27Gen(r *vh.Rand, tier string, n int) []c27In {
 	// regression case of the repaired finding (commit 0f3f7c0): the file name must stay ONE word of the command line
 	ins = append(ins, c27In{Snap: "foo", Apps: []string{"app"}, File: "a sh -c id x.desktop",
 		Content: c27B("[Desktop Entry]\nName=foo\nExec=not-the-app %U\nExec=foo.app %U\n")})
+	// blanks between = and a valid command with arguments: the arguments must be cut at the right offset
+	ins = append(ins, c27In{Snap: "foo", Apps: []string{"app"}, File: "other.desktop",
+		Content: c27B("[Desktop Entry]\nExec= foo.app %U\nExec=\tfoo.app --x\nExec=  foo.app  y \n")})
 	ins = append(ins, c27In{Snap: "foo", Apps: []string{"app"}, File: "app.desktop",
 		Content: c27B("[Desktop Entry]\nName=foo\nIcon=${SNAP}/meta/gui/icon.png\nExec=foo.app %U\nTryExec=/bin/sh\nExec=/bin/sh\n")})
 	for i := 0; i < n; i++ {
